@@ -171,6 +171,20 @@ CLAIMED['C14'] = dict(
          'finding: stop racing with the natural end leaves the status at "stopping".',
     design='6/C14')
 
+CLAIMED['C15'] = dict(
+    level='exploration',
+    text='Seeded search over attachment graphs on 2..5 generated, instrumented modules (acyclic, cyclic, missing, wrongly '
+         'typed, optional/empty, not configured), first-use phase per attachment (earlyInit, initModule, startModule, poll, '
+         'shutdown, never), shuffled declaration order, Pinata with dynamic modules, shared communicator through uri, '
+         'configured writes, failing early/late initialisation, slow or hanging first polls, shutdown during a read - '
+         'running the real Server._processCfg, start events, poll threads and SecNode.shutdown_modules. Event log rules: '
+         'each phase exactly once and in order, attached module initialised before use, configuration errors reported, '
+         'configured write before the first poll, ready only after the first round or the time-out, pollers stopped '
+         'before any shutdownModule, users shut down before the modules they are attached to.',
+    note='Trusted: simulation kernel, instrumented module classes. Graphs are sampled, not enumerated. An attachment to a '
+         'missing/wrongly typed module that is never touched, or touched only at run time, is not required to be reported.',
+    design='6/C15')
+
 NOT_APPLICABLE = {
     'C01': 'pure function of (datatype, candidate, previous) - no schedule, clock, I/O or fault dimension for a simulator to decide',
     'C02': 'pure round-trip law over (datatype, value) - no schedule, clock, I/O or fault dimension',
